@@ -7,7 +7,7 @@
    listed class). *)
 From Coq Require Import QArith.
 From GJ Require Import Base Kernel KernelSpec KernelProofs IntersectsProofs Series SeriesSpec
-  Ring RingSpec PipProofs PairProofs Jordan JordanQ JordanGP Convex LineSound LineComplete JordanRect LineRect PointPoly.
+  Ring RingSpec PipProofs PairProofs Jordan JordanQ JordanGP Convex LineSound LineComplete JordanRect LineRect PointPoly Holes HoleBox.
 Open Scope Z_scope.
 
 (* X contains a point: point membership (for a single point covering = meeting) *)
@@ -159,6 +159,13 @@ Theorem C03_point_poly : forall p e hs,
   point_contains_poly p (Pg e hs) = true <-> (3 <= length e)%nat /\ forall v, In v e -> v = p.
 Proof. exact point_contains_poly_spec. Qed.
 
+(* strict containment of a line string of ANY length by a ring (the test applied to holes): true exactly
+   when every rational point of the line string is strictly inside - the bounding-box shortcut taken for
+   16 points and more is sound in this mode (HoleBox.v) *)
+Theorem C03_ring_contains_line_strict_any_length : forall h qs, hole_ok h -> (2 <= length qs)%nat ->
+  (ring_contains_ring (Rg h) (Lr qs) false = true <-> (3 <= length h)%nat /\ line_strictly_inside h qs).
+Proof. exact rcr_line_strict_all. Qed.
+
 Print Assumptions C03_rect_rect.
 Print Assumptions C03_ring_segment_strict_exact.
 Print Assumptions C03_ring_segment_strict_pointset.
@@ -174,3 +181,4 @@ Print Assumptions C03_line_contains_line_pointset.
 Print Assumptions C03_line_contains_flat_rect_pointset.
 Print Assumptions C03_line_contains_rect_pointset.
 Print Assumptions C03_point_poly.
+Print Assumptions C03_ring_contains_line_strict_any_length.
